@@ -385,6 +385,7 @@ type expander struct {
 	unstable    map[*types.Var]bool
 	unstableFor *ast.FuncDecl
 	instSig     map[*ast.CallExpr]*types.Signature
+	instArgs    map[*ast.CallExpr]*types.TypeList
 }
 
 func (x *expander) fresh(base string) string {
@@ -569,14 +570,18 @@ func (x *expander) calleeOf(call *ast.CallExpr) (*helper, ast.Expr, *types.Selec
 					if !sameParams {
 						// concrete instantiation: fine when the body never spells a type parameter (the parameters and
 						// results are then declared with the instantiated types)
+						// concrete instantiation: parameters and results are declared with the instantiated types, and
+						// the type parameters named in the body are replaced by the type arguments
 						isig, isSig := inst.Type.(*types.Signature)
-						if !isSig || x.bodyNamesTypeParams(h) {
+						if !isSig {
 							return nil, nil, nil
 						}
 						if x.instSig == nil {
 							x.instSig = map[*ast.CallExpr]*types.Signature{}
+							x.instArgs = map[*ast.CallExpr]*types.TypeList{}
 						}
 						x.instSig[call] = isig
+						x.instArgs[call] = inst.TypeArgs
 					}
 				}
 				return h, nil, nil
@@ -817,12 +822,18 @@ func shortPath(p string) string {
 // expand builds the prelude text for one call.
 func (x *expander) expand(h *helper, call *ast.CallExpr, recvExpr ast.Expr, sel *types.Selection, tail bool) (body string, resNames []string, prelude string, ok bool) {
 	sig := h.fn.Type().(*types.Signature)
-	if is := x.instSig[call]; is != nil {
-		sig = is // a generic helper instantiated with concrete types whose body never names its type parameters
-	}
 	hinfo := h.pkg.TypesInfo
 	hoff := func(p token.Pos) int { return x.fset.PositionFor(p, false).Offset }
 	rename := map[types.Object]string{}
+	if is := x.instSig[call]; is != nil {
+		// a generic helper instantiated with concrete types
+		if tps, targs := sig.TypeParams(), x.instArgs[call]; tps != nil && targs != nil && tps.Len() == targs.Len() {
+			for i := 0; i < tps.Len(); i++ {
+				rename[tps.At(i).Obj()] = x.typeStr(targs.At(i))
+			}
+		}
+		sig = is
+	}
 	var binds []string
 	// receiver
 	if sig.Recv() != nil {
